@@ -80,9 +80,9 @@ func genC09(t *rapid.T) *Case {
 		if pct(t, 10, "nothello") {
 			c.Ops = append(c.Ops, Op{K: "raw", S: i, Msg: genRawMsgNot(t, 1, native), N: 777})
 		}
-		realm := pick(t, []string{"r1", "r1", "r1", "r1", "nosuch", "", "bad realm#", "r2"}, "realm")
+		realm := pick(t, []string{"r1", "r1", "r1", "r1", "r1", "r1", "r1", "nosuch", "", "bad realm#", "r2"}, "realm")
 		var details []KV
-		switch uni(t, 8, "roles") {
+		switch uni(t, 14, "roles") {
 		case 0:
 		case 1:
 			details = append(details, KV{"roles", genHostileValue(t, native)})
@@ -94,10 +94,26 @@ func genC09(t *rapid.T) *Case {
 		// authmethods
 		var am []V
 		nm := uni(t, 4, "nmeth")
+		if pct(t, 55, "configuredmethod") {
+			// lead with a challenge method the realm is configured for, so that the
+			// handshake reaches an authenticator
+			var chal []V
+			for _, a := range auths {
+				switch a {
+				case "ticket", "cryptosign", "wampcra":
+					chal = append(chal, VStr(a))
+				case "wampcra-salted":
+					chal = append(chal, VStr("wampcra"))
+				}
+			}
+			if len(chal) > 0 {
+				am = append(am, pick(t, chal, "cmeth"))
+			}
+		}
 		for j := 0; j < nm; j++ {
 			am = append(am, pick(t, []V{VStr("anonymous"), VStr("ticket"), VStr("wampcra"), VStr("cryptosign"), VStr("static"), VStr("bogus"), VStr(""), VI64(5), VNil(), VStr("wampcra"), VStr("ticket")}, "meth"))
 		}
-		if nm > 0 || pct(t, 20, "emptymethods") {
+		if len(am) > 0 || pct(t, 20, "emptymethods") {
 			details = append(details, KV{"authmethods", VList(am...)})
 		}
 		if pct(t, 4, "hostilemethods") {
